@@ -1,6 +1,9 @@
 """C04 - untrusted wire or text input only ever raises the library's own errors."""
+import hashlib
 import json
+import os
 import re
+import threading
 
 from drivers import c04_robust
 from vlib import c04_table, core
@@ -28,6 +31,48 @@ META = {
                  "validated by TLC trace checking",
     "design_ref": "DESIGN.md section 4, C04",
 }
+
+BATCH = 40000  # inputs per driver / validation batch (bounds the memory of a run)
+
+
+class _RssWatch:
+    """Samples the resident memory of this process and all its descendants (driver workers,
+    TLC JVMs) every 2 s; stop() returns the peak in MB.  Evidence only, never a verdict."""
+
+    def __init__(self):
+        self.peak = 0
+        self.done = threading.Event()
+        self.t = threading.Thread(target=self._run, daemon=True)
+        self.t.start()
+
+    @staticmethod
+    def _tree_rss():
+        kids, rss = {}, {}
+        for d in os.listdir("/proc"):
+            if d.isdigit():
+                try:
+                    with open("/proc/%s/stat" % d) as f:
+                        parts = f.read().rsplit(")", 1)[1].split()
+                    kids.setdefault(int(parts[1]), []).append(int(d))
+                    rss[int(d)] = int(parts[21]) * 4096
+                except (OSError, IndexError, ValueError):
+                    pass
+        total, todo = 0, [os.getpid()]
+        while todo:
+            p = todo.pop()
+            total += rss.get(p, 0)
+            todo += kids.get(p, [])
+        return total
+
+    def _run(self):
+        while not self.done.wait(2.0):
+            self.peak = max(self.peak, self._tree_rss())
+
+    def stop(self):
+        self.done.set()
+        self.peak = max(self.peak, self._tree_rss())
+        return self.peak // (1 << 20)
+
 
 ALL_KINDS = ["msg", "namew", "rdw", "optw", "optm", "namet", "rdt", "rdg", "ttl", "zone", "zinc", "msgt"]
 GEN_CFG = """INIT Init
@@ -167,52 +212,80 @@ def run(ctx):
         raise core.Machinery("specs/RobustTable.tla is stale: run /venv/bin/python vlib/c04_table.py")
     table = c04_table.load()
     by_key = {"rd": {r["key"]: r for r in table["rdata"]}, "opt": {o["key"]: o for o in table["options"]}}
+    outs, sigs, samples = {}, {}, []
+    watch = _RssWatch()
+    # thorough validates with fewer, smaller JVMs: several thorough tiers may run side by side
+    vkw = {} if quick else {"shards": 8, "heap": "1g"}
+
+    def process(jobs):
+        """Run one batch through the driver and the trace specification; nothing of a batch
+        but its counters, samples and rejects is kept."""
+        for k in range(0, len(jobs), BATCH):
+            part = jobs[k:k + BATCH]
+            traces = ctx.pmap(c04_robust.run_job, part)
+            ctx.evaluations += sum(len(tr["ev"]) for tr in traces)
+            for tr in traces:
+                if tr.get("hist") or tr.get("src") == "rnd":
+                    key = "%s|%s|%s|%s" % (tr["kind"], tr.get("s") if "s" in tr else bytes(tr["w"]).hex(), tr.get("cur", 0), tr.get("len", 0))
+                    ctx.distinct.add(int.from_bytes(hashlib.blake2b(key.encode("utf-8", "surrogatepass"), digest_size=8).digest(), "big"))
+                for e in tr["ev"]:
+                    o = "%s:%s" % (e["op"], "ok" if e["out"] == ["ok"] else e["cls"])
+                    outs[o] = outs.get(o, 0) + 1
+            if len(samples) < 4:
+                samples.extend(traces[:2])
+            rejects = ctx.validate("Trace_Robustness", "Trace_Robustness.cfg", traces, **vkw)
+            jobmap = {j["tid"]: j for j in part}
+            for tr, line, clause in rejects:
+                sig = classify(tr, line, clause)
+                sigs[sig] = sigs.get(sig, 0) + 1
+                if sigs[sig] <= 200:  # finish() reports one case per signature; bound what is kept
+                    ctx.violation(clause, sig, describe(tr, line), {"job": jobmap.get(tr["tid"]), "line": line, "trace": tr})
+
     if ctx.replay_case:
         job = ctx.replay_case["case"]["job"]
         job["wd"] = ctx.work
-        jobs = [job]
+        process([job])
     else:
         ctx.model("MC_Robustness", "MC_Robustness_quick.cfg" if quick else "MC_Robustness_thorough.cfg",
-                  workers=1 if quick else 16)
-        cfg = ctx.cfg("gen.cfg", GEN_CFG.format(mf=2, kinds=tset(ALL_KINDS), pairs=tset(PAIRS_QUICK if quick else PAIRS_THOROUGH)))
-        behs = ctx.generate("Gen_Robustness", cfg, count=False)
-        jobs = []
+                  workers=1 if quick else 16, heap="4g")
         bases = {}
-        for i, b in enumerate(behs):
-            job = dict(b)
-            job.update(tid="s%d" % i, src="spec", light=len(b["hist"]) >= 2, wd=ctx.work)
-            if b["kind"] == "zinc" and not b["hist"]:
-                continue  # not split yet: the same input as a plain zone
-            jobs.append(finish_job(job, by_key))
-            if not b["hist"] and b["kind"] in ("msg", "namew", "namet", "ttl", "zone", "msgt"):
-                bases.setdefault(b["kind"], []).append(job.get("w") or job.get("s"))
-        ctx.extra["spec_inputs"] = len(jobs)
+        nspec = 0
+        # quick: one generator run; thorough: one per group of kinds, so that only one group
+        # of inputs is ever in memory
+        groups = [ALL_KINDS] if quick else [["msg"], ["namew", "optw", "optm"], ["rdw"], ["rdt"], ["rdg"],
+                                            ["namet", "ttl", "msgt"], ["zone", "zinc"]]
+        for g, kinds in enumerate(groups):
+            cfg = ctx.cfg("gen%d.cfg" % g, GEN_CFG.format(mf=2, kinds=tset(kinds), pairs=tset(PAIRS_QUICK if quick else PAIRS_THOROUGH)))
+            behs = ctx.generate("Gen_Robustness", cfg, count=False, heap="4g")
+            jobs = []
+            for i, b in enumerate(behs):
+                if b["kind"] == "zinc" and not b["hist"]:
+                    continue  # not split yet: the same input as a plain zone
+                job = dict(b)
+                job.update(tid="s%d.%d" % (g, i), src="spec", light=len(b["hist"]) >= 2, wd=ctx.work)
+                jobs.append(finish_job(job, by_key))
+                if not b["hist"] and b["kind"] in ("msg", "namew", "namet", "ttl", "zone", "msgt"):
+                    bases.setdefault(b["kind"], []).append(job.get("w") or job.get("s"))
+            del behs
+            nspec += len(jobs)
+            process(jobs)
+            del jobs
+        ctx.extra["spec_inputs"] = nspec
         nrnd = 8000 if quick else 300000
-        rnd = c04_robust.random_jobs(ctx.seed, nrnd, table, bases)
-        jobs += [finish_job(j, by_key) for j in rnd]
-        ctx.extra["random_inputs"] = len(rnd)
-    jobmap = {j["tid"]: j for j in jobs}
-    traces = ctx.pmap(c04_robust.run_job, jobs)
-    ctx.evaluations = sum(len(tr["ev"]) for tr in traces)
+        for c in range(0, nrnd, BATCH):
+            n = min(BATCH, nrnd - c)
+            # chunk c of the seeded random inputs (its own sub-seed: the chunks are independent)
+            rnd = c04_robust.random_jobs(ctx.seed * 1000 + c // BATCH, n, table, bases)
+            process([finish_job(j, by_key) for j in rnd])
+        ctx.extra["random_inputs"] = nrnd
     ctx.extra["entry_point_calls"] = ctx.evaluations
-    ctx.distinct = set((tr["kind"], tr.get("s") if "s" in tr else bytes(tr["w"]).hex(), tr.get("cur", 0), tr.get("len", 0))
-                       for tr in traces if tr.get("hist") or tr.get("src") == "rnd")
-    outs = {}
-    for tr in traces:
-        for e in tr["ev"]:
-            k = "%s:%s" % (e["op"], "ok" if e["out"] == ["ok"] else e["cls"])
-            outs[k] = outs.get(k, 0) + 1
     ctx.extra["outcomes"] = dict(sorted(outs.items(), key=lambda kv: -kv[1])[:60])
-    for tr in traces[:2] + traces[len(traces) // 2:len(traces) // 2 + 2]:
+    ctx.extra["peak_rss_mb_process_tree"] = watch.stop()
+    for tr in samples[:4]:
         ctx.sample({k: v for k, v in tr.items() if k != "ev"} | {"ev": tr["ev"][:2]})
-    rejects = ctx.validate("Trace_Robustness", "Trace_Robustness.cfg", traces)
-    sigs = {}
-    for tr, line, clause in rejects:
-        sig = classify(tr, line, clause)
-        sigs[sig] = sigs.get(sig, 0) + 1
-        ctx.violation(clause, sig, describe(tr, line), {"job": jobmap.get(tr["tid"]), "line": line, "trace": tr})
     for sig, n in sorted(sigs.items()):
         ctx.log("rejected %5d  %s" % (n, sig))
+    ctx.log("peak RSS of the process tree: %d MB" % ctx.extra["peak_rss_mb_process_tree"])
 
 
 def selftest(ctx):
